@@ -1266,7 +1266,7 @@ def gen_grow(tier, rng):
             pairs = rng.sample(pairs, 1500)
         for i, (s1, s2) in enumerate(pairs):
             # route 0: memory outboards from slices; 1: one file handle appended to and re-hashed with create();
-            # 2: outboard_post_order into a sink that takes at most 100 bytes per write
+            # 2: outboard_post_order into a sink that takes at most 48 bytes per write
             cases.append(("grow", [0, seed(rng), s1, s2, bs, i % 3]))
     return cases
 
